@@ -1063,9 +1063,9 @@ RUNNERS = {
     'C20': run_C20,
     'C14': run_C14,
     'C01': generic('C01', Cp.plan_single(['str', 'key', 'ttl'], 60, select=0.03), Cp.plan_single(['str', 'key', 'ttl'], 80, select=0.03), 60, 1200,
-                   pre=lambda res, tier, seed, t_end, bad: matrix_pre(res, 'C01', tier, seed, t_end, [('strings', Mx.strings_cases, 2400), ('all-types', lambda: Mx.alltype_cases(random.Random(seed), 1 if tier == 'quick' else 4), 500), ('dump-restore', Mx.dump_cases, 200), ('set-options', Mx.set_option_cases, 700), ('ttl-rules', Mx.ttl_cases, 300), ('late-errors', Mx.late_error_cases, 450)])),
+                   pre=lambda res, tier, seed, t_end, bad: matrix_pre(res, 'C01', tier, seed, t_end, [('strings', Mx.strings_cases, 2400), ('floats', Mx.floats_cases, 400), ('all-types', lambda: Mx.alltype_cases(random.Random(seed), 1 if tier == 'quick' else 4), 500), ('dump-restore', Mx.dump_cases, 200), ('set-options', Mx.set_option_cases, 700), ('ttl-rules', Mx.ttl_cases, 300), ('late-errors', Mx.late_error_cases, 450)])),
     'C02': generic('C02', Cp.plan_single(['list', 'hash', 'set', 'sort', 'key'], 60), Cp.plan_single(['list', 'hash', 'set', 'sort', 'key'], 80), 60, 1200,
-                   pre=lambda res, tier, seed, t_end, bad: matrix_pre(res, 'C02', tier, seed, t_end, [('lists', Mx.lists_cases, 2200), ('sets', Mx.sets_cases, 120), ('last-element', Mx.last_element_cases, 600), ('all-types', lambda: Mx.alltype_cases(random.Random(seed), 1 if tier == 'quick' else 4), 500), ('sort', Mx.sort_cases, 2500)])),
+                   pre=lambda res, tier, seed, t_end, bad: matrix_pre(res, 'C02', tier, seed, t_end, [('lists', Mx.lists_cases, 2200), ('sets', Mx.sets_cases, 120), ('last-element', Mx.last_element_cases, 600), ('floats', Mx.floats_cases, 400), ('all-types', lambda: Mx.alltype_cases(random.Random(seed), 1 if tier == 'quick' else 4), 500), ('sort', Mx.sort_cases, 2500)])),
     'C03': generic('C03', Cp.plan_single(['zset', 'zset', 'set', 'key'], 60), Cp.plan_single(['zset', 'zset', 'set', 'key'], 80), 60, 1200, OBSERVERS['C03'],
                    pre=lambda res, tier, seed, t_end, bad: matrix_pre(res, 'C03', tier, seed, t_end, [('zsets', Mx.zsets_cases, 6000), ('floats', Mx.floats_cases, 1000), ('all-types', lambda: Mx.alltype_cases(random.Random(seed), 1 if tier == 'quick' else 4), 400)],
                                                                     OBSERVERS['C03'])),
